@@ -9,6 +9,7 @@ mod c05;
 mod c06;
 mod tables;
 mod c08;
+mod c09;
 mod c08_blocks;
 mod c11;
 mod corpus;
@@ -38,6 +39,7 @@ fn main() {
         | "c05" => c05::run(&opts),
         | "c06" => c06::run(&opts),
         | "c08" => c08::run(&opts),
+        | "c09" => c09::run(&opts),
         | "c11" => c11::run(&opts),
         | other => {
             eprintln!("unknown property {other}");
